@@ -25,6 +25,9 @@ Import ListNotations.
 Local Open Scope string_scope.
 Local Open Scope Z_scope.
 
+(* split conjunctions only (never an equation), then compute each part *)
+Ltac conj := repeat match goal with |- _ /\ _ => split end.
+
 (* the literal stringer walk (typed const carry-down over all files and blocks)
    collects exactly the constants of type T, in declaration order *)
 Theorem C04_collect_refines_declared : forall p T k,
@@ -129,6 +132,7 @@ Print Assumptions C04_guard_exact.
    (the stale-guard theorem is not vacuous) *)
 Theorem C04_fresh_output_compiles : forall p T fl g,
   enum_guard p T = true -> generate p T fl = Some g ->
+  f_bit fl && shadow_i T = false ->          (* K_bit_receiver_shadow: -bit on a type named I... *)
   compiles (const_env p) g false = true.
 Proof. exact P_fresh_output_compiles. Qed.
 Print Assumptions C04_fresh_output_compiles.
@@ -160,7 +164,7 @@ Definition no_flags : flags := {| f_bit := false; f_json := false; f_text := fal
 
 Example C04_example_guard :
   enum_guard ex_pkg "Level" = true /\ enum_guard ex_pkg "Big" = true /\ enum_guard ex_pkg "Color" = true.
-Proof. vm_compute. repeat split. Qed.
+Proof. conj; vm_compute; reflexivity. Qed.
 
 Example C04_example_declared :
   declared "Level" ex_pkg =
@@ -168,18 +172,18 @@ Example C04_example_declared :
   /\ declared "Color" ex_pkg =
     [("ColorRed", 2); ("ColorGreen", 3); ("ColorBlue", 4); ("Plain", 6); ("ColorLast", 7)]
   /\ declared "Big" ex_pkg = [("BigOne", 1); ("Huge", 18446744073709551615)].
-Proof. vm_compute. repeat split. Qed.
+Proof. conj; vm_compute; reflexivity. Qed.
 
 Example C04_example_generated :
   exists g, generate ex_pkg "Level" no_flags = Some g
     /\ t_values (const_env ex_pkg) g = [-128; -2; 0; 3; 127]
     /\ t_strings g = ["Neg"; "Low"; "Mid"; "High"; "Top"].
-Proof. eexists. vm_compute. repeat split. Qed.
+Proof. eexists. conj; vm_compute; reflexivity. Qed.
 
 Example C04_example_generated_color :
   exists g, generate ex_pkg "Color" no_flags = Some g
     /\ t_strings g = ["Red"; "Green"; "Blue"; "Plain"; "Last"].
-Proof. eexists. vm_compute. repeat split. Qed.
+Proof. eexists. conj; vm_compute; reflexivity. Qed.
 
 (* the stale-guard hypothesis is satisfiable: LevelHigh edited from iota+2 to iota+3 *)
 Definition ex_pkg_edited : pkg :=
@@ -214,7 +218,7 @@ Theorem C04_refuted_K_enum_dup :
     wf_pkg p = true /\ shape_ok p = true /\ no_foreign p = true /\ no_implicit p = true
     /\ generate p T fl = Some g
     /\ compiles (const_env p) g false = false.
-Proof. exists dup_pkg, "Color", no_flags. eexists. vm_compute. repeat split. Qed.
+Proof. exists dup_pkg, "Color", no_flags. eexists. conj; vm_compute; reflexivity. Qed.
 Print Assumptions C04_refuted_K_enum_dup.
 
 (* K_enum_implicit_type (open): `PermRW = PermRead | PermWrite` has type Perm
@@ -233,8 +237,8 @@ Theorem C04_refuted_K_enum_implicit_type :
     /\ In ("PermRW", 3) (declared T p)
     /\ is_valid (const_env p) g 3 = false.
 Proof.
-  exists implicit_pkg, "Perm", no_flags. eexists. vm_compute.
-  repeat split. right. right. left. reflexivity.
+  exists implicit_pkg, "Perm", no_flags. eexists. conj; vm_compute; try reflexivity.
+  right. right. left. reflexivity.
 Qed.
 Print Assumptions C04_refuted_K_enum_implicit_type.
 
@@ -254,5 +258,5 @@ Theorem C04_refuted_K_enum_foreign_carry :
     /\ generate p T fl = Some g
     /\ declared T p = [("LvlA", 1)]
     /\ is_valid (const_env p) g 5 = true.
-Proof. exists foreign_pkg, "Lvl", no_flags. eexists. vm_compute. repeat split. Qed.
+Proof. exists foreign_pkg, "Lvl", no_flags. eexists. conj; vm_compute; reflexivity. Qed.
 Print Assumptions C04_refuted_K_enum_foreign_carry.
